@@ -134,6 +134,16 @@ def spandrel(rng, center=None):
     return ((c, (b[0], b[1]), a), (a, b), (b, c))
 
 
+def dome(rng, center=None):
+    """A base edge closed by one tall, narrow parabolic arc (a strongly curved quadratic
+    segment: its two legs are far apart in parameter but close in space).  Float chain, ccw."""
+    cx, cy = center if center is not None else (rng.uniform(-3, 3), rng.uniform(-3, 3))
+    w = rng.uniform(0.8, 2.5)
+    h = rng.uniform(4, 12) * w
+    a, b = (cx, cy), (cx + w, cy)
+    return ((a, b), (b, (cx + w / 2 + rng.uniform(-0.2, 0.2) * w, cy + h), a))
+
+
 def _simple_float(poly):
     n = len(poly)
     for i in range(n):
